@@ -52,9 +52,11 @@ Section PollProofs.
   Proof. intros s t [Hw Hc Ht Hi]. split; cbn; auto. Qed.
 
   Lemma PI_sig_step : forall s : pstate, PI s ->
-    match sig_step s with inl s' => PI s' | inr s' => PI s' end.
+    match sig_step s with inl s' => PI s' | inr (_, s') => PI s' end.
   Proof.
     intros s [Hw Hc Ht Hi]. unfold sig_step.
+    destruct (winch s && hup s).
+    { split; cbn; auto; discriminate. }
     assert (H2 : PI (if winch s
                      then push (mkP (io s) (events s) (pipe s) false false false (sig_closed s) (inq s)
                                     (hup s) (saved s) (cur s) (g_owed_wake s) (g_owed_winch s)
@@ -147,9 +149,9 @@ Section PollProofs.
     set (s2 := arrive_all s1 (r_sig r)).
     assert (H2 : PI s2) by now apply PI_arrive_all.
     assert (H3 : match (if a then sig_step s2 else inl s2) with
-                 | inl s3 => PI s3 | inr s3 => PI s3 end).
+                 | inl s3 => PI s3 | inr (_, s3) => PI s3 end).
     { destruct a; [now apply PI_sig_step|exact H2]. }
-    destruct (if a then sig_step s2 else inl s2) as [s3|sq]; [|exact H3].
+    destruct (if a then sig_step s2 else inl s2) as [s3|[eq sq]]; [|exact H3].
     set (s4 := arrive_all s3 (r_wk r)).
     assert (H4 : PI s4) by now apply PI_arrive_all.
     set (s5 := if b then wake_step s4 else s4).
@@ -171,7 +173,7 @@ Section PollProofs.
     intros s r nodelay HP. unfold round_body.
     set (s0 := arrive_all s (r_before r)).
     assert (H0 : PI s0) by now apply PI_arrive_all.
-    destruct (negb _ && nodelay && events_empty s); [exact H0|].
+    destruct (negb _ && nodelay && negb (wake_queued s)); [exact H0|].
     match goal with |- context [write_step s0 r ?w] =>
       pose proof (PI_write_step s0 r w H0) as HW; destruct (write_step s0 r w) as [s1|e] end;
       [|exact H0].
@@ -189,7 +191,7 @@ Section PollProofs.
       destruct (r_eintr r); [apply IH; now apply PI_arrive_all|].
       pose proof (PI_round_body s r (negb finite) HP) as Hb.
       destruct (round_body s r (negb finite)) as [[res s']|[s' w]]; [exact Hb|].
-      destruct (negb (events_empty s') && negb w); [cbn; now apply PI_pop_ret|apply IH, Hb].
+      destruct (wake_queued s' && negb w); [cbn; now apply PI_pop_ret|apply IH, Hb].
   Qed.
 
   (* the invariant holds after every poll, whatever the schedule and however the poll ends *)
@@ -222,17 +224,18 @@ Section PollProofs.
   Qed.
 
   Lemma Wk_sig_step : forall s : pstate, Wk s ->
-    match sig_step s with inl s' => Wk s' | inr s' => Wk s' end.
+    match sig_step s with inl s' => Wk s' | inr (_, s') => Wk s' end.
   Proof.
     intros s H. unfold sig_step.
     assert (H2 : forall s2 : pstate, pipe s2 = pipe s -> (forall e, In e (events s) -> In e (events s2)) -> Wk s2).
     { intros s2 Hp He. destruct H as [H|H]; [left; lia|right; auto]. }
+    destruct (winch s && hup s); [apply H2; cbn; auto|].
     destruct (termsig s), (winch s); apply H2; cbn; auto; intros e He; apply in_or_app; now left.
   Qed.
 
   Lemma sig_step_pipe : forall s : pstate,
-    match sig_step s with inl s' => pipe s' = pipe s | inr s' => pipe s' = pipe s end.
-  Proof. intro s. unfold sig_step. destruct (termsig s), (winch s); reflexivity. Qed.
+    match sig_step s with inl s' => pipe s' = pipe s | inr (_, s') => pipe s' = pipe s end.
+  Proof. intro s. unfold sig_step. destruct (winch s && hup s), (termsig s), (winch s); reflexivity. Qed.
 
   Lemma Wk_wake_step : forall s : pstate, Wk s -> Wk (wake_step s).
   Proof.
@@ -284,9 +287,9 @@ Section PollProofs.
     set (s2 := arrive_all s1 (r_sig r)).
     assert (H2 : Wk s2) by now apply Wk_arrive_all.
     assert (H3 : match (if a then sig_step s2 else inl s2) with
-                 | inl s3 => Wk s3 | inr s3 => Wk s3 end).
+                 | inl s3 => Wk s3 | inr (_, s3) => Wk s3 end).
     { destruct a; [now apply Wk_sig_step|exact H2]. }
-    destruct (if a then sig_step s2 else inl s2) as [s3|sq]; [|exact H3].
+    destruct (if a then sig_step s2 else inl s2) as [s3|[eq sq]]; [|exact H3].
     set (s4 := arrive_all s3 (r_wk r)).
     assert (H4 : Wk s4) by now apply Wk_arrive_all.
     set (s5 := if b then wake_step s4 else s4).
@@ -304,7 +307,7 @@ Section PollProofs.
     intros s r nodelay HP. unfold round_body.
     set (s0 := arrive_all s (r_before r)).
     assert (H0 : Wk s0) by now apply Wk_arrive_all.
-    destruct (negb _ && nodelay && events_empty s); [exact H0|].
+    destruct (negb _ && nodelay && negb (wake_queued s)); [exact H0|].
     match goal with |- context [write_step s0 r ?w] =>
       pose proof (Wk_write_step s0 r w H0) as HW; destruct (write_step s0 r w) as [s1|e] end;
       [|exact H0].
@@ -337,7 +340,7 @@ Section PollProofs.
       destruct (r_eintr r); [apply IH; now apply Wk_arrive_all|].
       pose proof (Wk_round_body s r (negb finite) HP) as Hb.
       destruct (round_body s r (negb finite)) as [[res s']|[s' w]]; [right; exact Hb|].
-      destruct (negb (events_empty s') && negb w); [|apply IH, Hb].
+      destruct (wake_queued s' && negb w); [|apply IH, Hb].
       pose proof (Wk_pop_ret s' Hb). destruct (pop_ret s'). exact H.
   Qed.
 
@@ -358,8 +361,8 @@ Section PollProofs.
     assert (H2 : 0 < pipe s2) by now apply pipe_arrive_all_pos.
     assert (H3 : match (if a then sig_step s2 else inl s2) with
                  | inl s3 => 0 < pipe s3 | inr _ => True end).
-    { destruct a; [|exact H2]. pose proof (sig_step_pipe s2). destruct (sig_step s2); auto. lia. }
-    destruct (if a then sig_step s2 else inl s2) as [s3|sq]; [|discriminate].
+    { destruct a; [|exact H2]. pose proof (sig_step_pipe s2). destruct (sig_step s2) as [?|[? ?]]; auto. lia. }
+    destruct (if a then sig_step s2 else inl s2) as [s3|[eq sq]]; [|discriminate].
     set (s4 := arrive_all s3 (r_wk r)).
     assert (H4 : 0 < pipe s4) by now apply pipe_arrive_all_pos.
     destruct (wake_step_pushes s4 H4) as (Hin & _).
@@ -382,7 +385,7 @@ Section PollProofs.
     intros s r nodelay s' w Hp. unfold round_body.
     set (s0 := arrive_all s (r_before r)) in *.
     assert (Hw : (0 <? pipe s0) = true) by now apply Nat.ltb_lt.
-    rewrite Hw. destruct (negb _ && nodelay && events_empty s); [discriminate|].
+    rewrite Hw. destruct (negb _ && nodelay && negb (wake_queued s)); [discriminate|].
     match goal with |- context [write_step s0 r ?w] =>
       assert (Hws : match write_step s0 r w with inl s1 => pipe s1 = pipe s0 | inr _ => True end) end.
     { unfold write_step. destruct (_ && _); auto. destruct (r_wr_err r || hup _); auto.
@@ -423,7 +426,7 @@ Section PollProofs.
     { clear - Hws. unfold s2, arrive_all. generalize dependent s1.
       induction (r_sig r) as [|m ms IH]; intros s1 H; cbn; auto. apply IH.
       destruct m; cbn; try destruct (sig_closed s1); cbn; auto. }
-    unfold sig_step. rewrite H2. exact I.
+    unfold sig_step. rewrite H2. destruct (winch s2 && hup s2); exact I.
   Qed.
 
   (* ---------------------------------------------------------------- what poll never touches *)
@@ -451,8 +454,8 @@ Section PollProofs.
   Qed.
 
   Lemma Same_sig_step : forall s : pstate,
-    match sig_step s with inl s' => Same s s' | inr s' => Same s s' end.
-  Proof. intro s. unfold sig_step. destruct (termsig s), (winch s); repeat split. Qed.
+    match sig_step s with inl s' => Same s s' | inr (_, s') => Same s s' end.
+  Proof. intro s. unfold sig_step. destruct (winch s && hup s), (termsig s), (winch s); repeat split. Qed.
 
   Lemma Same_wake_step : forall s : pstate, Same s (wake_step s).
   Proof. intro s. unfold wake_step. destruct (Nat.min (pipe s) 1024); repeat split. Qed.
@@ -476,10 +479,10 @@ Section PollProofs.
     set (s2 := arrive_all s1 (r_sig r)).
     assert (H2 : Same s1 s2) by apply Same_arrive_all.
     assert (H3 : match (if a then sig_step s2 else inl s2) with
-                 | inl s3 => Same s1 s3 | inr s3 => Same s1 s3 end).
+                 | inl s3 => Same s1 s3 | inr (_, s3) => Same s1 s3 end).
     { destruct a; [|exact H2]. pose proof (Same_sig_step s2).
-      destruct (sig_step s2); eapply Same_trans; eauto. }
-    destruct (if a then sig_step s2 else inl s2) as [s3|sq]; [|exact H3].
+      destruct (sig_step s2) as [?|[? ?]]; eapply Same_trans; eauto. }
+    destruct (if a then sig_step s2 else inl s2) as [s3|[eq sq]]; [|exact H3].
     set (s4 := arrive_all s3 (r_wk r)).
     assert (H4 : Same s1 s4) by (eapply Same_trans; [exact H3|apply Same_arrive_all]).
     set (s5 := if b then wake_step s4 else s4).
@@ -560,7 +563,7 @@ Section PollProofs.
     intros s r nodelay HQ. unfold round_body.
     set (s0 := arrive_all s (r_before r)).
     assert (H0 : Out s s0) by (apply Out_of_Same; [exact HQ|apply Same_arrive_all]).
-    destruct (negb _ && nodelay && events_empty s); [exact H0|].
+    destruct (negb _ && nodelay && negb (wake_queued s)); [exact H0|].
     match goal with |- context [write_step s0 r ?w] =>
       pose proof (Out_write_step s0 r w (Out_QI _ _ H0)) as HW;
       destruct (write_step s0 r w) as [s1|e] end; [|exact H0].
@@ -585,7 +588,7 @@ Section PollProofs.
         eapply Out_trans; [exact H0|]. apply IH. apply (Out_QI _ _ H0).
       + pose proof (Out_round_body s r (negb finite) HQ) as Hb.
         destruct (round_body s r (negb finite)) as [[res s']|[s' w]]; [exact Hb|].
-        destruct (negb (events_empty s') && negb w).
+        destruct (wake_queued s' && negb w).
         * cbn. eapply Out_trans; [exact Hb|]. apply Out_of_Same; [apply (Out_QI _ _ Hb)|apply Same_pop_ret].
         * eapply Out_trans; [exact Hb|]. apply IH. apply (Out_QI _ _ Hb).
   Qed.
@@ -612,9 +615,15 @@ Section PollProofs.
   Lemma reads_not_blocked : forall (s1 : pstate) r a b c x, reads s1 r a b c = inl x -> fst x <> PBlocked.
   Proof.
     intros s1 r a b c x. unfold reads.
-    destruct (if a then sig_step _ else inl _); [|intro E; inversion E; discriminate].
+    destruct (if a then sig_step _ else inl _) as [?|[? ?]]; [|intro E; inversion E; discriminate].
     destruct (if c then in_step _ _ else inl _); intro E; inversion E; discriminate.
   Qed.
+
+  Lemma wake_queued_in : forall s : pstate, In EvWake (events s) -> wake_queued s = true.
+  Proof. intros s H. unfold wake_queued. apply existsb_exists. exists EvWake. auto. Qed.
+
+  Lemma wake_queued_nonempty : forall s : pstate, wake_queued s = true -> events s <> [].
+  Proof. intros s H E. unfold wake_queued in H. rewrite E in H. discriminate. Qed.
 
   Lemma round_not_blocked : forall (s : pstate) r nodelay x, Wk s ->
     round_body s r nodelay = inl x -> fst x <> PBlocked.
@@ -624,11 +633,11 @@ Section PollProofs.
     assert (Hc : (negb
                    (negb (queue_empty s0) && (match r_accept r with Some _ => true | None => r_wr_err r end || hup s0)
                     || sigpipe s0 || (0 <? pipe s0) || (match inq s0 with [] => false | _ => true end || hup s0))
-                  && nodelay && events_empty s) = false).
+                  && nodelay && negb (wake_queued s)) = false).
     { destruct HW as [Hp|He].
       - assert (H0 : (0 <? pipe s0) = true) by (apply Nat.ltb_lt; now apply pipe_arrive_all_pos).
         rewrite H0. rewrite orb_true_r. cbn. reflexivity.
-      - unfold events_empty. destruct (events s); [contradiction|]. now rewrite andb_false_r. }
+      - rewrite (wake_queued_in s He). now rewrite andb_false_r. }
     rewrite Hc.
     destruct (write_step _ _ _); [|intro E; inversion E; discriminate].
     destruct (reads _ _ _ _ _) as [y|y] eqn:Er; [|discriminate].
@@ -646,7 +655,7 @@ Section PollProofs.
       pose proof (Wk_round_body s r (negb finite) HW) as Hb.
       destruct (round_body s r (negb finite)) as [[res s']|[s' w]] eqn:Er.
       + cbn. apply (round_not_blocked s r (negb finite) (res, s') HW Er).
-      + destruct (negb (events_empty s') && negb w); [unfold pop_ret; destruct (events s'); discriminate|].
+      + destruct (wake_queued s' && negb w); [unfold pop_ret; destruct (events s'); discriminate|].
         apply IH, Hb.
   Qed.
 
@@ -679,12 +688,13 @@ Section PollProofs.
     set (s2 := arrive_all s1 (r_sig r)).
     assert (H2 : Ext s1 s2) by apply Ext_arrive_all.
     assert (H3 : match (if a then sig_step s2 else inl s2) with
-                 | inl s3 => Ext s1 s3 | inr s3 => Ext s1 s3 end).
+                 | inl s3 => Ext s1 s3 | inr (_, s3) => Ext s1 s3 end).
     { destruct a; [|exact H2]. unfold sig_step.
       assert (Hx : forall s3 : pstate, (events s3 = events s2 \/ events s3 = events s2 ++ [EvResize]) -> Ext s1 s3).
       { intros s3 [E|E]; (eapply Ext_trans; [exact H2|]); [exists []; now rewrite app_nil_r|now exists [EvResize]]. }
+      destruct (winch s2 && hup s2); [apply Hx; cbn; auto|].
       destruct (termsig s2), (winch s2); apply Hx; cbn; auto. }
-    destruct (if a then sig_step s2 else inl s2) as [s3|sq]; [|exact H3].
+    destruct (if a then sig_step s2 else inl s2) as [s3|[eq sq]]; [|exact H3].
     set (s4 := arrive_all s3 (r_wk r)).
     assert (H4 : Ext s1 s4) by (eapply Ext_trans; [exact H3|apply Ext_arrive_all]).
     set (s5 := if b then wake_step s4 else s4).
@@ -704,7 +714,7 @@ Section PollProofs.
     intros s r nodelay. unfold round_body.
     set (s0 := arrive_all s (r_before r)).
     assert (H0 : Ext s s0) by apply Ext_arrive_all.
-    destruct (negb _ && nodelay && events_empty s); [exact H0|].
+    destruct (negb _ && nodelay && negb (wake_queued s)); [exact H0|].
     match goal with |- context [write_step s0 r ?w] =>
       assert (HW : match write_step s0 r w with inl s1 => Ext s s1 | inr _ => True end) end.
     { unfold write_step. destruct (_ && _); [|exact H0]. destruct (r_wr_err r || hup _); [exact I|].
@@ -728,10 +738,10 @@ Section PollProofs.
     round_body s r nodelay = inl (res, s') -> res <> PRet e.
   Proof.
     intros s r nodelay res s' e. unfold round_body.
-    destruct (negb _ && nodelay && events_empty s); [intro E; inversion E; discriminate|].
+    destruct (negb _ && nodelay && negb (wake_queued s)); [intro E; inversion E; discriminate|].
     destruct (write_step _ _ _); [|intro E; inversion E; discriminate].
     unfold reads.
-    destruct (if sigpipe _ then sig_step _ else inl _); [|intro E; inversion E; discriminate].
+    destruct (if sigpipe _ then sig_step _ else inl _) as [?|[? ?]]; [|intro E; inversion E; discriminate].
     destruct (if (_ || hup _) then in_step _ _ else inl _); intro E; inversion E; discriminate.
   Qed.
 
@@ -754,7 +764,7 @@ Section PollProofs.
       pose proof (Ext_round_body s r (negb finite)) as Hb.
       destruct (round_body s r (negb finite)) as [[res1 s1]|[s1 w]] eqn:Er.
       + intro E. inversion E; subst. exfalso. eapply round_inl_not_ret; eauto.
-      + destruct Hb as [a0 H0]. destruct (negb (events_empty s1) && negb w).
+      + destruct Hb as [a0 H0]. destruct (wake_queued s1 && negb w).
         * intro E. exists a0. rewrite <- H0.
           pose proof (pop_ret_popped s1) as Hp. destruct (pop_ret s1). inversion E; subst. exact Hp.
         * intro E. destruct (IH _ _ _ _ _ _ E) as [add Ha]. exists (a0 ++ add).
@@ -771,9 +781,8 @@ Section PollProofs.
   Proof. intros finite s sched res s' rest E. unfold poll in E. apply poll_loop_fifo in E. exact E. Qed.
 
   (* ---------------------------------------------------------------- a poll returns *)
-  (* the loop ends as soon as an event is queued and either nothing is left to write or the tty
-     does not take more: at the loop test with an empty queue, or at the end of an iteration in
-     which select did not report the tty writable *)
+  (* the loop ends at the loop test as soon as an event is queued and nothing is left to write;
+     with a Wake event queued it also ends after the first iteration that sent nothing *)
   Theorem returns_when_idle : forall finite first (s : pstate) sched,
     queue_empty s = true -> events s <> [] ->
     exists e, fst (fst (poll_loop finite first s sched)) = PRet (Some e).
@@ -785,11 +794,12 @@ Section PollProofs.
   Theorem returns_when_tty_stalls : forall finite first (s : pstate) r rest s',
     (queue_empty s && negb (events_empty s)) = false ->
     (finite && r_expired r && negb first) = false -> r_eintr r = false ->
-    round_body s r (negb finite) = inr (s', false) -> events s' <> [] ->
+    round_body s r (negb finite) = inr (s', false) -> wake_queued s' = true ->
     exists e, fst (fst (poll_loop finite first s (r :: rest))) = PRet (Some e).
   Proof.
-    intros finite first s r rest s' H1 H2 H3 H4 H5. cbn [poll_loop]. rewrite H1, H2, H3, H4.
-    unfold events_empty, pop_ret. destruct (events s') as [|e l]; [congruence|]. cbn. eauto.
+    intros finite first s r rest s' H1 H2 H3 H4 H5. cbn [poll_loop]. rewrite H1, H2, H3, H4, H5.
+    pose proof (wake_queued_nonempty s' H5) as Hne.
+    unfold pop_ret. destruct (events s') as [|e l]; [congruence|]. cbn. eauto.
   Qed.
 
   (* in particular a wake request: an iteration that gets through select with a byte in the waker
@@ -803,8 +813,127 @@ Section PollProofs.
   Proof.
     intros finite first s r rest s' H1 H2 H3 Hp H4.
     eapply returns_when_tty_stalls; eauto.
-    pose proof (round_queues_wake s r (negb finite) s' false Hp H4) as Hin.
-    intro E. rewrite E in Hin. contradiction.
+    apply wake_queued_in. exact (round_queues_wake s r (negb finite) s' false Hp H4).
+  Qed.
+
+  (* ---------------------------------------------------------------- bounded in iterations *)
+  Definition plen (s : pstate) : nat := length (pending (tq (io s))).
+
+  Lemma poll_round_len : forall (t : term A) k,
+    Inv (tq t) -> (N.of_nat (total_len (chunks (tq t))) <= usize_max)%N ->
+    exists t', poll_round t (KAccept k) = Ok t'
+      /\ length (pending (tq t')) <= length (pending (tq t))
+      /\ (sent t' <> sent t -> length (pending (tq t')) < length (pending (tq t))).
+  Proof.
+    intros t k HI HB. cbn [poll_round].
+    destruct (is_empty (tq t)); [exists t; split; auto; split; [lia|congruence]|].
+    pose proof (offset_le_total (tq t) (inv_off _ HI)) as Hot.
+    unfold consume_with. rewrite (as_slice_ok (tq t) (inv_off _ HI)). cbn [bind].
+    set (sl := front_slice (tq t)) in *. set (size := consumer k true sl).
+    assert (Hsize : (size <= N.of_nat (length sl))%N) by (unfold size, consumer; lia).
+    destruct (consume_take (tq t) size HI) as (q' & E & Ht); [lia|].
+    rewrite E. cbn [bind].
+    destruct (take_sound (tq t) size q' HI Ht) as (_ & _ & _ & Hp).
+    eexists. split; [reflexivity|]. cbn [tq sent]. rewrite Hp. fold sl. unfold taken.
+    replace (N.min size (N.of_nat (length sl))) with size by lia.
+    rewrite app_length, firstn_length. split; lia.
+  Qed.
+
+  Lemma round_body_len : forall (s : pstate) r nodelay s' sp, QI s ->
+    round_body s r nodelay = inr (s', sp) ->
+    plen s' <= plen s /\ (sp = true -> plen s' < plen s).
+  Proof.
+    intros s r nodelay s' sp [HI HB]. unfold round_body.
+    set (s0 := arrive_all s (r_before r)).
+    assert (Hio0 : io s0 = io s) by apply (Same_arrive_all (r_before r) s).
+    destruct (negb _ && nodelay && negb (wake_queued s)); [discriminate|].
+    match goal with |- context [write_step s0 r ?w] =>
+      assert (HW : match write_step s0 r w with
+                   | inl s1 => plen s1 <= plen s /\ (sent (io s1) <> sent (io s0) -> plen s1 < plen s)
+                   | inr _ => True end) end.
+    { unfold write_step, plen. destruct (_ && _); [|rewrite Hio0; split; [lia|congruence]].
+      destruct (r_wr_err r || hup s0); [exact I|].
+      destruct (r_accept r) as [k|]; [|rewrite Hio0; split; [lia|congruence]].
+      rewrite <- Hio0 in HI, HB.
+      destruct (poll_round_len (io s0) k HI HB) as (t' & E & H1 & H2). rewrite E. cbn [upd_io io].
+      rewrite <- Hio0. auto. }
+    match goal with |- context [write_step s0 r ?w] => destruct (write_step s0 r w) as [s1|e] end; [|discriminate].
+    match goal with |- context [reads s1 r ?a ?b ?c] =>
+      pose proof (Same_reads s1 r a b c) as HR; destruct (reads s1 r a b c) as [x|s7] end; [discriminate|].
+    intro E. inversion E; subst. destruct HR as (_ & _ & _ & Hio). unfold plen in *. rewrite Hio.
+    destruct HW as [H1 H2]. split; auto. intro Hsp. apply H2. apply negb_true_iff in Hsp.
+    now apply Nat.eqb_neq in Hsp.
+  Qed.
+
+  Lemma round_body_events : forall (s : pstate) r nodelay s' sp,
+    round_body s r nodelay = inr (s', sp) -> wake_queued s = true -> wake_queued s' = true.
+  Proof.
+    intros s r nodelay s' sp E He. pose proof (Ext_round_body s r nodelay) as Hx. rewrite E in Hx.
+    destruct Hx as [add Ha]. unfold wake_queued in *. rewrite Ha, existsb_app, He. reflexivity.
+  Qed.
+
+  (* With an event queued, the loop leaves at the first iteration that sends nothing and every
+     other iteration sends at least one byte: the poll is over within |pending| + 1 iterations
+     (iterations cut short by EINTR, which need a signal each, are not counted).  It does not go
+     round on a tty that is reported writable and accepts nothing. *)
+  Theorem returns_within : forall sched finite first (s : pstate),
+    QI s -> wake_queued s = true -> Forall (fun r => r_eintr r = false) sched ->
+    plen s < length sched ->
+    fst (fst (poll_loop finite first s sched)) <> PMore.
+  Proof.
+    induction sched as [|r rest IH]; intros finite first s HQ He Hne Hlen; [cbn in Hlen; lia|].
+    cbn [poll_loop].
+    destruct (queue_empty s && _); [unfold pop_ret; destruct (events s); cbn; discriminate|].
+    destruct (finite && r_expired r && negb first); [unfold pop_ret; destruct (events s); cbn; discriminate|].
+    inversion Hne as [|? ? Hr Hrest]; subst. rewrite Hr.
+    pose proof (Out_round_body s r (negb finite) HQ) as Ho.
+    destruct (round_body s r (negb finite)) as [[res s']|[s' sp]] eqn:Er.
+    - cbn. intro Hx. subst res.
+      (* an iteration never ends the poll with "schedule exhausted" *)
+      revert Er. unfold round_body.
+      destruct (negb _ && negb finite && negb (wake_queued s)); [discriminate|].
+      destruct (write_step _ _ _); [|discriminate]. unfold reads.
+      destruct (if sigpipe _ then sig_step _ else inl _) as [?|[? ?]]; [|discriminate].
+      destruct (if (_ || hup _) then in_step _ _ else inl _); discriminate.
+    - destruct (round_body_len s r (negb finite) s' sp HQ Er) as [Hle Hlt].
+      pose proof (round_body_events s r (negb finite) s' sp Er He) as He'.
+      rewrite He'. destruct sp; cbn [negb andb].
+      + apply IH; auto; [apply (Out_QI _ _ Ho)|].
+        specialize (Hlt eq_refl). cbn [length] in Hlen. lia.
+      + unfold pop_ret. destruct (events s'); cbn; discriminate.
+  Qed.
+
+  (* "bounded time" for a wake request, in iterations: with a byte in the waker socket (or Wake
+     queued) a poll ends - with an event or an error, never asleep - within |pending| + 2
+     iterations not interrupted by EINTR *)
+  Theorem wake_returns_within : forall sched finite (s : pstate),
+    QI s -> Wk s -> Forall (fun r => r_eintr r = false) sched ->
+    plen s + 1 < length sched ->
+    let res := fst (fst (poll_loop finite true s sched)) in
+    res <> PMore /\ res <> PBlocked.
+  Proof.
+    intros sched finite s HQ HW Hne Hlen res. split; [|now apply poll_loop_not_blocked].
+    unfold res. destruct (wake_queued s) eqn:Ewq.
+    - apply returns_within; auto. lia.
+    - (* the wake is still in the socket: the first iteration reads it *)
+      destruct HW as [Hp|Hin]; [|rewrite (wake_queued_in s Hin) in Ewq; discriminate].
+      destruct sched as [|r rest]; [cbn in Hlen; lia|]. cbn [poll_loop].
+      destruct (queue_empty s && _); [unfold pop_ret; destruct (events s); cbn; discriminate|].
+      rewrite andb_false_r.
+      inversion Hne as [|? ? Hr Hrest]; subst. rewrite Hr.
+      pose proof (Out_round_body s r (negb finite) HQ) as Ho.
+      destruct (round_body s r (negb finite)) as [[res1 s']|[s' sp]] eqn:Er.
+      + cbn. intro Hx. subst res1. revert Er. unfold round_body.
+        destruct (negb _ && negb finite && negb (wake_queued s)); [discriminate|].
+        destruct (write_step _ _ _); [|discriminate]. unfold reads.
+        destruct (if sigpipe _ then sig_step _ else inl _) as [?|[? ?]]; [|discriminate].
+        destruct (if (_ || hup _) then in_step _ _ else inl _); discriminate.
+      + pose proof (round_queues_wake s r (negb finite) s' sp (pipe_arrive_all_pos _ _ Hp) Er) as Hin.
+        destruct (round_body_len s r (negb finite) s' sp HQ Er) as [Hle _].
+        rewrite (wake_queued_in s' Hin).
+        destruct sp; cbn [negb andb]; [|unfold pop_ret; destruct (events s'); cbn; discriminate].
+        apply returns_within; auto; [apply (Out_QI _ _ Ho)|now apply wake_queued_in|].
+        cbn [length] in Hlen. lia.
   Qed.
 
   (* ---------------------------------------------------------------- dispose *)
@@ -813,7 +942,8 @@ Section PollProofs.
   Lemma Out_dispose_loop : forall fuel (s : pstate) sched s' rest, QI s ->
     dispose_loop is_da fuel s sched = Some (s', rest) -> Out s s'.
   Proof.
-    induction fuel as [|fuel IH]; intros s sched s' rest HQ E; [discriminate|].
+    induction fuel as [|fuel IH]; intros s sched s' rest HQ E.
+    { cbn in E. inversion E; subst. apply Out_of_Same; [exact HQ|apply Same_refl]. }
     cbn [dispose_loop] in E. pose proof (Out_poll true s sched HQ) as HP.
     destruct (poll true s sched) as [[res s1] rest1]. cbn [fst snd] in HP.
     destruct res as [[e|]| | |]; try discriminate.
@@ -924,7 +1054,7 @@ Section PollProofs.
     { unfold round_body in *.
       set (s0 := arrive_all s (r_before r)) in *.
       assert (Hio0 : io s0 = io s) by apply (Same_arrive_all (r_before r) s).
-      destruct (negb _ && negb finite && events_empty s) eqn:Eb.
+      destruct (negb _ && negb finite && negb (wake_queued s)) eqn:Eb.
       - (* blocked: then nothing was to be written *)
         apply Hqe; auto. rewrite Ha in Eb. destruct (queue_empty s0); auto; cbn in Eb; try discriminate.
       - rewrite Ha in *. fold s0 in Hh. rewrite Hh in *. cbn [orb] in *. rewrite andb_true_r in *.
@@ -940,7 +1070,7 @@ Section PollProofs.
             pose proof (Same_reads s0 r a b c) as HR; destruct (reads s0 r a b c) as [[res s']|s'] end;
             destruct HR as (_ & _ & _ & Hio); unfold Drained in *; rewrite Hio; exact Hd0. }
     destruct (round_body s r (negb finite)) as [[res s']|[s' w]]; [exact Hdr|].
-    destruct (negb (events_empty s') && negb w).
+    destruct (wake_queued s' && negb w).
     - cbn. eapply Out_drained; [apply Out_of_Same; [apply (Out_QI _ _ Hb)|apply Same_pop_ret]|exact Hdr].
     - eapply Out_drained; [apply Out_poll_loop; apply (Out_QI _ _ Hb)|exact Hdr].
   Qed.
@@ -957,13 +1087,13 @@ Section PollProofs.
      sequence behind it are delivered - whatever else happens: signals (they were forgotten
      before the wait), hang-up later on, timeouts, the answer arriving or not. *)
   Theorem dispose_delivers_when_tty_accepts : forall fuel (s : pstate) r rest k s',
-    QI s -> (N.of_nat (total_len (chunks (tq (io s))) + length closing) <= usize_max)%N ->
+    0 < fuel -> QI s -> (N.of_nat (total_len (chunks (tq (io s))) + length closing) <= usize_max)%N ->
     r_eintr r = false -> r_wr_err r = false -> r_accept r = Some k -> (usize_max <= k)%N ->
     hup s = false -> Forall (fun m => m <> MHup) (r_before r) ->
     dispose is_da closing fuel s (r :: rest) = Some s' ->
     tty (io s') = tty (io s) ++ front_slice (tq (io s)) ++ closing.
   Proof.
-    intros fuel s r rest k s' HQ HB2 He Hw Ha Hk Hh0 Hnh E.
+    intros fuel s r rest k s' Hfuel HQ HB2 He Hw Ha Hk Hh0 Hnh E.
     destruct (dispose_restores fuel s (r :: rest) s' HQ HB2 E) as (_ & _ & _ & Hst).
     assert (Hd : Drained s'); [|unfold stream, Drained in *; now rewrite Hd, app_nil_r in Hst].
     destruct HQ as [HI HB]. unfold dispose in E.
@@ -978,7 +1108,7 @@ Section PollProofs.
       unfold write, total_len in *. cbn. rewrite push_last_concat, app_length. lia. }
     destruct (dispose_loop is_da fuel s1c (r :: rest)) as [[s2 rest2]|] eqn:El; [|discriminate].
     assert (Hd2 : Drained s2).
-    { destruct fuel as [|fuel]; [discriminate|]. cbn [dispose_loop] in El.
+    { destruct fuel as [|fuel]; [lia|]. cbn [dispose_loop] in El.
       (* the first poll *)
       assert (Hfirst : Drained (snd (fst (poll true s1c (r :: rest))))).
       { unfold poll. apply first_round_drains with (k := k); auto;
